@@ -16,7 +16,7 @@ from .functions import (FUNCTIONS, UnknownFunctionError,
     make_sig_printable, ExitKaSignal, FUNCTION_DOCUMENTATION,
     FunctionArgError, resolve_combinatoric)
 from .plot import Plot
-from .units import UNITS, PREFIXES, lookup_unit
+from .units import UNITS, PREFIXES, lookup_unit, InvalidPrefixError
 from .probability import InvalidParameterException
 from .config import ConfigProperties
 import ka.config
@@ -73,7 +73,11 @@ def get_units_string():
     return ", ".join(format_unit(unit) for unit in UNITS)
     
 def print_unit_info(name):
-    unit = lookup_unit(name)
+    try:
+        unit = lookup_unit(name)
+    except InvalidPrefixError:
+        print("Can't apply a prefix to that unit, as it has an offset.")
+        return
     if unit is None:
         print("Unknown unit.")
     else:
@@ -193,7 +197,7 @@ def save_history(history):
 
 def execute_interpreter_command(s):
     args = s[len(INTERPRETER_COMMAND_PREFIX):].split()
-    cmd_name = args[0]
+    cmd_name = args[0] if args else ""
     args = args[1:]
     for names, cmd in INTERPRETER_COMMANDS:
         if (isinstance(names, tuple) and cmd_name in names) or (isinstance(names, str) and cmd_name == names):
